@@ -141,11 +141,13 @@ def real_passes(ctx, rnd):
           ('blank', lambda: BlankPass(None, {})), ('includes', lambda: IncludesPass(None, {})),
           ('comments', lambda: CommentsPass(None, {})), ('balanced::curly', lambda: BalancedPass('curly', {})),
           ('ints::a', lambda: IntsPass('a', {})), ('ifs', lambda: IfPass(None, {'unifdef': UNIFDEF}))]
+    texts = [CTEXT, CTEXT.replace('\n\n', '\n'), '#include <a.h>\nint a;\n# 2 "z.c"\nint b;']      # with / without blank lines, without final newline
     for name, f in mk:
+      for text in texts:
         for k in (1, 2):
             p = f()
             p.max_transforms = None
-            files = [('t.c', CTEXT), ('d/u.c', CTEXT.replace('int g;', 'int q;'))][:k]
+            files = [('t.c', text), ('d/u.c', text.replace('int g;', 'int q;') + '// u\n')][:k]
             sc = {'files': files, 'rules': [([('has', 0, 'f')], 0)], 'passes': [], 'cfg': {'N': rnd.choice([1, 3]), 'no_cache': True},
                   'sched': [rnd.randint(0, 7) for _ in range(30)], 'pass_name': name, 'max_accepts': 60}
             o = driver.run_scenario(sc, ctx.tmp, real_passes=[p])
